@@ -510,7 +510,219 @@ func c03Scenarios(prop, tier string) []*CrashScenario {
 	return scs
 }
 
-func c11Scenarios(tier string) []*SeqScenario { return nil }
+// ---- C11: GC reclaims space in bounded cycles ----
+
+func fileSizeRaw(fs *vos.MemFS, name string) (int64, bool) {
+	d, ok := fs.ReadFileRaw(name)
+	return int64(len(d)), ok
+}
+
+// reportedStorage is the storage the store reports, minus the two header
+// files (whose JSON can grow by a digit when a first-file number advances;
+// the statement is about reclaiming data files).
+func reportedStorage(w *World) (int64, error) {
+	n, err := w.S.StorageSize()
+	if err != nil {
+		return 0, err
+	}
+	for _, h := range []string{idxPath + ".info", dataPath + ".info"} {
+		if sz, ok := fileSizeRaw(w.FS, h); ok {
+			n -= sz
+		}
+	}
+	return n, nil
+}
+
+func reclaimFinal(removeAll bool, threshold int) func(w *World, c *Collector) *Violation {
+	return func(w *World, c *Collector) *Violation {
+		mp := w.mh()
+		// 1. establish the premise: supersede every live record, flush
+		for ki := range w.Keys {
+			val, present := w.Model[string(w.Keys[ki].Digest)]
+			if !present {
+				continue
+			}
+			var op Op
+			if removeAll {
+				op = Op{Kind: OpRemove, K: ki}
+			} else {
+				nv := 3
+				if string(val) == string(values[3]) {
+					nv = 2
+				}
+				op = Op{Kind: OpPut, K: ki, V: nv}
+			}
+			if v := w.Step(op); v != nil {
+				return v
+			}
+		}
+		if v := w.Step(Op{Kind: OpFlush}); v != nil {
+			return v
+		}
+		// 2. which non-current files hold nothing live?
+		view := loadFsck(w.FS, w.Cfg)
+		live := map[uint64]bool{}
+		for _, b := range w.locateAll() {
+			live[uint64(b.Offset)] = true
+		}
+		type premise struct {
+			path   string
+			oldest bool
+			recs   int
+		}
+		var prem []premise
+		if mp != nil && view.hasPH {
+			curFile, _ := mp.VerifFlushed()
+			for n := view.ph.FirstFile; n != curFile; n++ {
+				recs, ok := view.priRecs[n]
+				if !ok {
+					break
+				}
+				hasLive := false
+				for _, r := range recs {
+					if live[uint64(n)*uint64(view.ph.MaxFileSize)+uint64(r.Pos)] {
+						hasLive = true
+					}
+				}
+				if !hasLive {
+					prem = append(prem, premise{fmt.Sprintf("%s.%d", dataPath, n), n == view.ph.FirstFile, len(recs)})
+				}
+			}
+		}
+		if view.hasIH {
+			curIdx := w.idx().VerifFileNum()
+			referenced := map[uint32]bool{}
+			for _, pos := range w.liveTable() {
+				if pos != 0 {
+					referenced[uint32((pos-4)/uint64(view.ih.MaxFileSize))] = true
+				}
+			}
+			for n := view.ih.FirstFile; n != curIdx; n++ {
+				recs, ok := view.idxRecs[n]
+				if !ok {
+					break
+				}
+				if !referenced[n] {
+					prem = append(prem, premise{fmt.Sprintf("%s.%d", idxPath, n), n == view.ih.FirstFile, len(recs)})
+				}
+			}
+		}
+		if len(prem) == 0 {
+			return nil
+		}
+		c.count("nontrivial", 1)
+		c.count("reclaim.premise_files", int64(len(prem)))
+		maxRecs := 0
+		for _, p := range prem {
+			if p.recs > maxRecs {
+				maxRecs = p.recs
+			}
+		}
+		K := (maxRecs+1)/2 + 3
+		cycle := func() *Violation {
+			before, err := reportedStorage(w)
+			if err != nil {
+				return violO("reclaim", "call-error", "StorageSize: %v", err)
+			}
+			relocs := w.relocs
+			if v := w.Step(Op{Kind: OpPriGC, A: threshold}); v != nil {
+				return v
+			}
+			if v := w.Step(Op{Kind: OpIdxGC, B: true}); v != nil {
+				return v
+			}
+			after, err := reportedStorage(w)
+			if err != nil {
+				return violO("reclaim", "call-error", "StorageSize: %v", err)
+			}
+			if w.relocs == relocs && after > before {
+				return violO("reclaim", "storage-grew", "a GC cycle that relocated nothing increased the reported storage from %d to %d bytes", before, after)
+			}
+			if v := w.Step(Op{Kind: OpFlush}); v != nil {
+				return v
+			}
+			return nil
+		}
+		for i := 0; i < K; i++ {
+			if v := cycle(); v != nil {
+				return v
+			}
+		}
+		if len(w.GCErrors) > 0 {
+			return violO("reclaim", "no-progress", "GC cycles failed: %v", w.GCErrors)
+		}
+		for _, p := range prem {
+			sz, exists := fileSizeRaw(w.FS, p.path)
+			if exists && sz != 0 {
+				return violO("reclaim", "no-progress", "%s held no live data when the premise was established, but still has %d bytes after %d GC cycles", p.path, sz, K)
+			}
+			if exists && p.oldest {
+				return violO("reclaim", "no-progress", "%s was the oldest file and held no live data, but still exists after %d GC cycles", p.path, K)
+			}
+		}
+		c.count("reclaim.files_released", int64(len(prem)))
+		// 3. fixed point: further cycles on the unchanged store write nothing
+		if threshold >= 50 {
+			// let draining of low-use files finish first
+			for i := 0; i < K+2; i++ {
+				if v := cycle(); v != nil {
+					return v
+				}
+			}
+			d1 := w.FS.Digest()
+			n1 := w.FS.LogLen()
+			for i := 0; i < 2; i++ {
+				if v := cycle(); v != nil {
+					return v
+				}
+			}
+			if d2 := w.FS.Digest(); d2 != d1 {
+				muts := w.FS.Log()
+				first := ""
+				for _, m := range muts[n1:] {
+					if m.Kind == vos.MWrite || m.Kind == vos.MTrunc || (m.Kind == vos.MRemove && !strings.HasSuffix(m.Path, ".gc")) {
+						first = m.String()
+						break
+					}
+				}
+				return violO("reclaim", "no-fixed-point", "two further GC cycles on an unchanged store changed the directory (first change: %s)", first)
+			}
+		}
+		// the store still holds what the model says
+		return w.Reads()
+	}
+}
+
+func c11Scenarios(tier string) []*SeqScenario {
+	alpha := putOps([]int{0, 1, 4}, []int{1, 2})
+	alpha = append(alpha, removeOps([]int{0, 1})...)
+	alpha = append(alpha, Op{Kind: OpFlush}, Op{Kind: OpPriGC, A: 85}, Op{Kind: OpIdxGC, B: true})
+	depth := 3
+	cfgs := []Config{cfg("mh", false, 8, 1, 1), cfg("mh", false, 8, 48, 48), cfg("cid", false, 8, 1, bigFile)}
+	if tier != "quick" {
+		depth = 4
+		cfgs = append(cfgs, cfg("mh", false, 8, 48, 1), cfg("mh", false, 8, 1, 48), cfg("mh", false, 12, 48, 48))
+	}
+	var scs []*SeqScenario
+	for _, c := range cfgs {
+		for pi, pre := range gcPreambles() {
+			for _, removeAll := range []bool{true, false} {
+				for _, thr := range []int{85, 50} {
+					if tier == "quick" && thr == 50 && !removeAll {
+						continue
+					}
+					d := depth
+					if pi > 0 {
+						d = depth - 1
+					}
+					scs = append(scs, &SeqScenario{Prop: "C11", Name: fmt.Sprintf("c11/removeAll=%v/thr=%d", removeAll, thr), Cfg: c, Preamble: pre, Alphabet: alpha, Depth: d,
+						Setup: withLedger, Final: reclaimFinal(removeAll, thr), Oracles: []string{"reclaim"}})
+				}
+			}
+		}
+	}
+	return scs
+}
 
 func recoverC09(sc *CrashScenario, img vos.Image, info crashInfo, c *Collector) *Violation { return nil }
 
